@@ -25,6 +25,12 @@ def time_ns(tok):
     return int(sec) * 1000000000 + int((ns or '0').ljust(9, '0')[:9])
 
 
+def stat_value(a):
+    W = 1 << 64
+    word = lambda k: int(a.get(k, '0')) % W
+    return (1 if a.get('isdir', '0') == '1' else 0) + 2 * (word('atime') + W * (word('mtime') + W * word('ctime')))
+
+
 class Canon:
     def __init__(self):
         self.map = {0: 0, 1: 1, 2: 2}
@@ -130,7 +136,9 @@ class Canon:
             # the value of a successful fstatat is the file's modification time in ns (0 = modified while mdsort ran)
             return 'fstatat %d %s = %s' % (self.h(a['dirfd']), hx(U('path')), self.res(t, time_ns(a.get('st_mtime', 'RUN'))))
         if n == 'stat':
-            return 'stat %s = %s' % (hx(U('path')), self.res(t))
+            # the value of a successful stat is what mdsort reads from it (Model.statDecode): bit 0 = S_ISDIR, then the three
+            # times in seconds (st_atim, st_mtim, st_ctim) as 64-bit two's complement words
+            return 'stat %s = %s' % (hx(U('path')), self.res(t, stat_value(a)))
         if n == 'utimensat':
             def tm(v):
                 return 'omit' if v == 'OMIT' else str(time_ns(v))
@@ -202,10 +210,10 @@ class WorldCheck:
         self._ast[key] = res
         return res
 
-    def request(self, scen, pats, result, dry=False, syntax=False, stdin=False):
+    def request(self, scen, pats, result, dry=False, syntax=False, stdin=False, relative=False):
         blocks = self.blocks(scen, pats)
         confok = blocks is not None
-        env, files, devs, tr, notes = self._parts(scen, result, dry, syntax, stdin, confok)
+        env, files, devs, tr, notes = self._parts(scen, result, dry, syntax, stdin, confok, relative=relative)
         req = 'M conform %s %s %s %s %s %s' % (blob(env), blob('\n'.join(blocks or [])), files, blob(devs),
                                                 hx(scen.stdin or b''), blob('\n'.join(tr)))
         return req, tr, notes
@@ -219,15 +227,33 @@ class WorldCheck:
                                                       hx(scen.stdin or b''), blob('\n'.join(tr)))
         return req, tr, notes
 
-    def _parts(self, scen, result, dry, syntax, stdin, confok):
+    def request_args(self, scen, result, argv, raw, conftext, permute=True, relative=False):
+        """The scenario for `M conformargs`: the run of `Model.mainArgs` from the argument vector `argv` (bytes, argv[1..]), the raw
+        environment `raw` = (HOME, pw_dir, TMPDIR, TZ, _PATH_TMP), each bytes or None = absent, and the text of the configuration file
+        the run reads.  Modes and paths are computed by the model (parseArgs, readenv, defaultconf); the mode words of <env> are unused."""
+        env, files, devs, tr, notes = self._parts(scen, result, False, False, False, False, relative=relative)
+        alines = '\n'.join(hx(a) for a in argv)
+        rlines = '\n'.join('~' if v is None else hx(v) for v in raw)
+        req = 'M conformargs %s %s %s %s %s %s %s %s %s' % ('31' if permute else '30', blob(alines), blob(rlines), blob(env), hx(conftext), files,
+                                                            blob(devs), hx(scen.stdin or b''), blob('\n'.join(tr)))
+        return req, tr, notes
+
+    def _parts(self, scen, result, dry, syntax, stdin, confok, relative=False):
+        """relative: the abstract file system names every directory relative to the sandbox root, which is the working directory of the
+        run (scenarios whose configuration names its maildirs by relative paths; absolute and relative names of one directory would be
+        two directories to the model); the run was started with `-f conf`."""
         env = ' '.join([proc.PIN['VSHIM_TIME'], proc.PIN['VSHIM_PID'], hx(proc.PIN['VSHIM_HOST'].encode()), proc.PIN['VSHIM_RANDOM'],
                         hx(os.path.join(scen.root, 'tmp').encode()), hx(os.path.join(scen.root, 'home').encode()),
-                        hx(os.path.join(scen.root, 'conf').encode()), '1' if dry else '0', '1' if syntax else '0', '1' if stdin else '0',
-                        '1' if confok else '0'])
+                        hx(b'conf' if relative else os.path.join(scen.root, 'conf').encode()), '1' if dry else '0', '1' if syntax else '0', '1' if stdin else '0',
+                        '1' if confok else '0',
+                        # the zone `time_format` (file-time date conditions) formats in: TZ of the run, `-` = unset
+                        hx((scen.env_extra.get('TZ') or '').encode('latin-1'))])     # None = the scenario unsets TZ (ce13)
         files = []
         dirs = set()
         for rel, (kind, data, mt) in scen.initial.items():
-            full = os.path.join(scen.root, rel)
+            full = rel if relative else os.path.join(scen.root, rel)
+            if relative and '/' not in rel:
+                continue
             if kind == 'dir':
                 dirs.add(full)
             elif kind == 'file':
@@ -301,6 +327,8 @@ def compare(scen, result, answer):
     for d, ents in mfs.items():
         if not (d.endswith('/new') or d.endswith('/cur')):
             continue
+        if not d.startswith('/'):
+            d = os.path.join(scen.root, d)         # a scenario with relative names (request_args relative=True): the run's cwd is the root
         real = rfs.get(d, {})
         if set(real) != set(ents):
             return 'fs', 'directory %s: model %s, real %s' % (d, sorted(ents), sorted(real))
